@@ -58,16 +58,17 @@ Definition zraw_ok (z : zraw) : bool :=
   (zr_chrom z <? W32) && (zr_start z <? W32) && (zr_end z <? W32) && (zr_valid z <? W32) &&
   (zr_min z <? W32) && (zr_max z <? W32) && (zr_sum z <? W32) && (zr_sumsq z <? W32).
 
-Definition inode_ok (nd : inode) : bool :=
+Definition inode_ok (n : nat) (nd : inode) : bool :=
   match nd with
   | ILeaf _ c => N.of_nat c <? W16
-  | IInner cs => Nlen cs <? W16
+  | IInner cs => (Nlen cs <? W16) && forallb (fun c => Nat.ltb c n) cs
   end.
 Definition count_nodes (t : nat) (ps : list (pid * N)) : nat :=
   length (filter (fun jg => match fst jg with PNode u _ => Nat.eqb u t | _ => false end) ps).
-(* node store [nodes] is a tree over items 0..n-1 *)
+(* node store [nodes] is a tree over items 0..n-1: every child index is a node of the store, the walk
+   from node 0 resolves within depth h and lists the items in order *)
 Definition tree_ok (h : nat) (nodes : list inode) (n : nat) : bool :=
-  forallb inode_ok nodes &&
+  forallb (inode_ok (length nodes)) nodes &&
   match sk_leaves nodes h 0 with Some ix => nat_list_eqb ix (seq 0 n) | None => false end.
 
 Definition chrom_ok (key : nat) (c : chrom_info) : bool :=
@@ -87,40 +88,43 @@ Definition needed_pids (bt : list (list binfo)) : list pid :=
                         ++ map (PNode t) (seq 0 (length (nth t (l_trees L) []))))
               (seq 0 (length bt)).
 
-Definition wf_b : bool :=
-  let bt := block_table cmp L X in
-  let tab := offsets cmp L X bt in
-  let counts := map fst (l_secs L) in
-  (* scalars *)
+Definition wf_scalars : bool :=
   (l_version L <? W16) && (Nlen (x_zooms X) <? W16) && (x_field_count X <? W16) && (x_defined_fields X <? W16)
   && (N.of_nat (l_ckey L) <? W32) && (l_cblock L <? W32) && (l_rblock L <? W32) && (l_fill L <? 256)
   && (Nlen (x_vals X) <? W64) && (Nlen (x_beds X) <? W64)
   && (match x_summary X with
       | Some s => (sr_bases s <? W64) && (sr_min s <? W64) && (sr_max s <? W64) && (sr_sum s <? W64) && (sr_sumsq s <? W64)
-      | None => true end)
-  (* sections *)
-  && (if x_bigwig X then
-        Nat.eqb (sum_nat counts) (length (x_vals X))
-        && forallb (fun si => sec_ok (snd (fst si)) (snd si)) (combine (l_secs L) (split_by counts (x_vals X)))
-      else
-        Nat.eqb (sum_nat counts) (length (x_beds X))
-        && forallb bedsec_ok (split_by counts (x_beds X)))
-  (* zoom levels *)
-  && Nat.eqb (length (l_zsecs L)) (length (x_zooms X))
+      | None => true end).
+Definition wf_sections : bool :=
+  let counts := map fst (l_secs L) in
+  if x_bigwig X then
+    Nat.eqb (sum_nat counts) (length (x_vals X))
+    && forallb (fun si => sec_ok (snd (fst si)) (snd si)) (combine (l_secs L) (split_by counts (x_vals X)))
+  else
+    Nat.eqb (sum_nat counts) (length (x_beds X))
+    && forallb bedsec_ok (split_by counts (x_beds X)).
+Definition wf_zooms : bool :=
+  Nat.eqb (length (l_zsecs L)) (length (x_zooms X))
   && forallb (fun zc => (fst (fst zc) <? W32) && (Nlen (snd (fst zc)) <? W32) && forallb zraw_ok (snd (fst zc))
                         && forallb (fun c => Nat.ltb 0 c) (snd zc)
                         && Nat.eqb (sum_nat (snd zc)) (length (snd (fst zc))))
-             (combine (x_zooms X) (l_zsecs L))
-  (* chromosome tree *)
-  && forallb (chrom_ok (l_ckey L)) (x_chroms X) && (Nlen (x_chroms X) <? W64)
-  && tree_ok 64 (l_cnodes L) (length (x_chroms X))
-  (* R-trees *)
-  && Nat.eqb (length (l_trees L)) (length bt)
+             (combine (x_zooms X) (l_zsecs L)).
+Definition wf_chroms : bool :=
+  forallb (chrom_ok (l_ckey L)) (x_chroms X) && (Nlen (x_chroms X) <? W64)
+  && tree_ok 64 (l_cnodes L) (length (x_chroms X)).
+Definition wf_trees (bt : list (list binfo)) : bool :=
+  Nat.eqb (length (l_trees L)) (length bt)
   && forallb (fun t => let nodes := nth t (l_trees L) [] in
                        tree_ok (length nodes) nodes (length (nth t bt []))
                        && (sk_size nodes (length nodes) 0 <=? count_nodes t (l_order L))%nat)
-             (seq 0 (length bt))
-  (* placement: everything referred to is in the file, below 2^64 *)
-  && forallb (fun p => match plookup p tab with Some o => o + psize cmp L X bt p <? W64 | None => false end)
-             (needed_pids bt).
+             (seq 0 (length bt)).
+(* placement: everything referred to is in the file, below 2^64 *)
+Definition wf_place (bt : list (list binfo)) : bool :=
+  let tab := offsets L X bt in
+  forallb (fun p => match plookup p tab with Some o => o + psize L X bt p <? W64 | None => false end)
+          (needed_pids bt).
+
+Definition wf_b : bool :=
+  let bt := block_table cmp L X in
+  wf_scalars && wf_sections && wf_zooms && wf_chroms && wf_trees bt && wf_place bt.
 End Wf.
